@@ -1073,7 +1073,7 @@ func (c *kctx) concurrentPhase(gb *gateBox) {
 	gb.set(&directGate{c.port})
 	c.res.SchedHash = sc.SchedHash
 	c.res.Steps += sc.Steps
-	c.res.Probes[kpConcurrentCloseBlockedInOnce] += sc.LockBlocks
+	c.res.Probes[kpConcurrentCloseBlockedInOnce] += sc.LockBlocks + sc.KeyWaits
 	evs := h.Events()
 	if c.trace {
 		for _, e := range evs {
